@@ -1223,7 +1223,15 @@ func runStockSinksTerminate(rc *RunCtx) {
 	g0 := simrt.Goroutines()
 	b, _ := el.NewBroker()
 	ch := make(chan *el.Event, 1+tp.Choose(3, "cap"))
-	chSink, err := channel.NewChannelSink(ch, time.Hour)
+	// in some runs nobody reads the channel: writes beyond its capacity give up after the sink's (short)
+	// timeout, each of them, however many are waiting at once -- and the Sends return
+	noConsumer := tp.Choose(3, "no-consumer") == 0
+	sinkTimeout := time.Hour
+	if noConsumer {
+		sinkTimeout = 20 * time.Millisecond
+		simrt.Probe("send.channel-sink-without-consumer")
+	}
+	chSink, err := channel.NewChannelSink(ch, sinkTimeout)
 	if err != nil {
 		rc.Failf("C03.setup", "", "%v", err)
 		return
@@ -1294,6 +1302,9 @@ func runStockSinksTerminate(rc *RunCtx) {
 	}
 	want := total * usesChan
 	got := 0
+	if noConsumer {
+		want = 0
+	}
 	sim.Spawn("consumer", func() {
 		for got < want {
 			simrt.Yield("consumer:step")
